@@ -14,7 +14,7 @@ import thespian.actors as ta
 from esrally import track
 from esrally.driver import driver
 
-from harness import actors
+from harness import actors, c04
 from harness.actors import endless, names, to_driver, to_worker, wakeups
 from harness.common import concrete
 from symx import core
@@ -48,6 +48,9 @@ SHAPES = {
     "par_capped3on2": (lambda: [track.Parallel([A(), T("B", iterations=None), T("C")], clients=2)], 2),
     "three_elements": (lambda: [T("x"), track.Parallel([A(), T("B", iterations=None)]), T("y", 2)], 2),
     "named_2clients": (lambda: [track.Parallel([T("A", 2, completes_parent=True), T("B", iterations=None)], clients=3), T("z")], 3),
+    # several clients per worker: client ids and worker ids differ (clients 0,1 on worker 0, client 2 on worker 1)
+    "named_2clients_on_1worker": (lambda: [track.Parallel([T("A", 2, completes_parent=True), T("B", iterations=None)]), T("z")], 2),
+    "any_3clients_2workers": (lambda: [track.Parallel([T("C", 2, any_completes_parent=True), T("D", iterations=None, any_completes_parent=True)])], 2),
 }
 
 
@@ -765,4 +768,8 @@ HARNESSES = [
                     "history length": "unbounded (induction)", "timestamps": "symbolic reals"},
             real_valued=True, doc="H1/H2: every enabled event from every INV state preserves INV, progress and the local barrier facts"),
 ]
+HARNESSES.append(Harness("executor_seam", c04.completion_seam, "symbolic",
+                         lambda tier: [{"completes": c, "any": a} for (c, a) in ((False, False), (True, False), (False, True))],
+                         reads=[driver.AsyncExecutor.__call__], stubs=c04.STUBS, real_valued=True,
+                         doc="assume/guarantee seam: the real AsyncExecutor honours the executor contract used by the actor harnesses (shared with C04)"))
 BUDGET = {"quick": 170, "thorough": 1200}
